@@ -97,78 +97,147 @@ theorem firstFree_total (used : List String) (n : String) :
       · exact ⟨_, rfl⟩
   exact gen (used.length + 1) 0 (by omega) (fun i hi => absurd hi (by omega))
 
-/-! ## per-scope invariants -/
+/-! ## the `kept_names` loop -/
 
-/-- invariant of the per-scope loop: the reserved names stay in `used_names`, every assigned name is in
-`used_names`, is not reserved, and the assigned names are pairwise different -/
-structure Inv (reserved : List String) (st : St) : Prop where
-  res_sub : ∀ r, r ∈ reserved → r ∈ st.used
+theorem claim_used_sub : ∀ (gs : List (String × List Sym)) (used : List String) (u : String),
+    u ∈ used → u ∈ (claimKept used gs).1 := by
+  intro gs
+  induction gs with
+  | nil => intro used u h; simpa [claimKept] using h
+  | cons g r ih =>
+    intro used u h
+    unfold claimKept
+    split
+    · exact ih _ u (List.mem_cons_of_mem _ h)
+    · exact ih _ u h
+
+/-- every kept name is in `used_names` after the loop, was not in it before, and is the key of a one-symbol group -/
+theorem claim_kept : ∀ (gs : List (String × List Sym)) (used : List String) (k : String),
+    k ∈ (claimKept used gs).2 →
+      k ∈ (claimKept used gs).1 ∧ k ∉ used ∧ ∃ g, g ∈ gs ∧ g.1 = k ∧ g.2.length = 1 := by
+  intro gs
+  induction gs with
+  | nil => intro used k h; simp [claimKept] at h
+  | cons g r ih =>
+    intro used k h
+    unfold claimKept at h ⊢
+    split at h
+    · rename_i hc
+      rw [if_pos hc]
+      have hc' : g.2.length = 1 ∧ g.1 ∉ used := by simpa using hc
+      simp only at h ⊢
+      rcases List.mem_cons.mp h with e | h'
+      · subst e
+        refine ⟨claim_used_sub r _ _ (List.mem_cons_self ..), hc'.2, g, List.mem_cons_self .., rfl, hc'.1⟩
+      · obtain ⟨h1, h2, g', hg', e1, e2⟩ := ih _ k h'
+        exact ⟨h1, fun hu => h2 (List.mem_cons_of_mem _ hu), g', List.mem_cons_of_mem _ hg', e1, e2⟩
+    · rename_i hc
+      rw [if_neg hc]
+      obtain ⟨h1, h2, g', hg', e1, e2⟩ := ih _ k h
+      exact ⟨h1, h2, g', List.mem_cons_of_mem _ hg', e1, e2⟩
+
+/-- `used_names` after the loop = before ∪ kept -/
+theorem claim_used_char : ∀ (gs : List (String × List Sym)) (used : List String) (u : String),
+    u ∈ (claimKept used gs).1 → u ∈ used ∨ u ∈ (claimKept used gs).2 := by
+  intro gs
+  induction gs with
+  | nil => intro used u h; left; simpa [claimKept] using h
+  | cons g r ih =>
+    intro used u h
+    unfold claimKept at h ⊢
+    split at h
+    · rename_i hc
+      rw [if_pos hc]
+      simp only at h ⊢
+      rcases ih _ u h with h1 | h1
+      · rcases List.mem_cons.mp h1 with e | h2
+        · right; rw [e]; exact List.mem_cons_self ..
+        · left; exact h2
+      · right; exact List.mem_cons_of_mem _ h1
+    · rename_i hc
+      rw [if_neg hc]
+      exact ih _ u h
+
+/-- a one-symbol group whose name is not in `used_names` at the start is kept (whatever comes before it) -/
+theorem claim_keeps : ∀ (gs : List (String × List Sym)) (used : List String) (g : String × List Sym),
+    g ∈ gs → g.2.length = 1 → g.1 ∈ (claimKept used gs).2 ∨ g.1 ∈ used := by
+  intro gs
+  induction gs with
+  | nil => intro used g h; simp at h
+  | cons h r ih =>
+    intro used g hg hl
+    unfold claimKept
+    split
+    · rename_i hc
+      simp only
+      rcases List.mem_cons.mp hg with e | hg'
+      · left; rw [e]; exact List.mem_cons_self ..
+      · rcases ih (h.1 :: used) g hg' hl with h1 | h1
+        · left; exact List.mem_cons_of_mem _ h1
+        · rcases List.mem_cons.mp h1 with e | h2
+          · left; rw [e]; exact List.mem_cons_self ..
+          · right; exact h2
+    · rename_i hc
+      rcases List.mem_cons.mp hg with e | hg'
+      · subst e
+        right
+        simp only [Bool.and_eq_true, beq_iff_eq, Bool.not_eq_eq_eq_not, Bool.not_true, not_and,
+          Bool.not_eq_false] at hc
+        simpa using hc hl
+      · exact ih used g hg' hl
+
+/-! ## per-scope invariants of the second loop -/
+
+/-- invariant of the second loop of a scope.  `used0` is `used_names` after the `kept_names` loop, `kept` the kept
+names, `done` the keys of the groups already visited: `used_names` only grows, every assigned name is in it, an
+assigned name is either the kept name of a visited group or was not in `used0`, and the assigned names are
+pairwise different. -/
+structure Inv (used0 kept done : List String) (st : St) : Prop where
+  used0_sub : ∀ u, u ∈ used0 → u ∈ st.used
   out_used : ∀ p, p ∈ st.out → p.2 ∈ st.used
-  out_fresh : ∀ p, p ∈ st.out → p.2 ∉ reserved
+  out_class : ∀ p, p ∈ st.out → (p.2 ∈ done ∧ p.2 ∈ kept) ∨ p.2 ∉ used0
   out_distinct : st.out.Pairwise (fun a b => a.2 ≠ b.2)
-  gen_used : ∀ g, g ∈ st.gen → g ∈ st.used
 
-theorem inv_init (reserved : List String) : Inv reserved ⟨reserved, [], []⟩ :=
-  ⟨fun _ h => h, by simp, by simp, by simp, by simp⟩
+theorem inv_init (used0 kept : List String) : Inv used0 kept [] ⟨used0, [], []⟩ :=
+  ⟨fun _ h => h, by simp, by simp, by simp⟩
 
-theorem assignSym_inv {reserved : List String} {name : String} {single : Bool} {st st' : St} {s : Sym}
-    (hinv : Inv reserved st) (h : assignSym name single st s = .ok st') : Inv reserved st' := by
+theorem Inv.mono_done {used0 kept done : List String} {st : St} (h : Inv used0 kept done st) (n : String) :
+    Inv used0 kept (n :: done) st :=
+  ⟨h.used0_sub, h.out_used,
+    fun p hp => (h.out_class p hp).imp (fun ⟨a, b⟩ => ⟨List.mem_cons_of_mem _ a, b⟩) id, h.out_distinct⟩
+
+/-- a generated name -/
+theorem assignSym_gen_inv {used0 kept done : List String} {name : String} {st st' : St} {s : Sym}
+    (hinv : Inv used0 kept done st) (h : assignSym name false st s = .ok st') : Inv used0 kept done st' := by
   unfold assignSym at h
+  simp only [Bool.false_eq_true, if_false] at h
   split at h
-  · rename_i hc
+  · rename_i c hff
     cases h
-    have hfree : name ∉ st.used := by
-      simp only [Bool.and_eq_true, Bool.not_eq_eq_eq_not, Bool.not_true] at hc
-      simpa using hc.2
-    refine ⟨?_, ?_, ?_, ?_, ?_⟩
-    · intro r hr; exact List.mem_cons_of_mem _ (hinv.res_sub r hr)
+    have hfree : c ∉ st.used := firstFree_not_mem _ _ hff
+    refine ⟨?_, ?_, ?_, ?_⟩
+    · intro u hu; exact List.mem_cons_of_mem _ (hinv.used0_sub u hu)
     · intro p hp
       rcases List.mem_append.mp hp with hp | hp
       · exact List.mem_cons_of_mem _ (hinv.out_used p hp)
       · simp at hp; subst hp; simp
     · intro p hp
       rcases List.mem_append.mp hp with hp | hp
-      · exact hinv.out_fresh p hp
+      · exact hinv.out_class p hp
       · simp at hp; subst hp
-        exact fun hr => hfree (hinv.res_sub _ hr)
+        right; exact fun hu => hfree (hinv.used0_sub _ hu)
     · rw [List.pairwise_append]
       refine ⟨hinv.out_distinct, by simp, ?_⟩
       intro a ha b hb
       simp at hb; subst hb
       intro e
-      have e' : a.2 = name := e
+      have e' : a.2 = c := e
       exact hfree (e' ▸ hinv.out_used a ha)
-    · intro g hg; exact List.mem_cons_of_mem _ (hinv.gen_used g hg)
-  · split at h
-    · rename_i c hff
-      cases h
-      have hfree : c ∉ st.used := firstFree_not_mem _ _ hff
-      refine ⟨?_, ?_, ?_, ?_, ?_⟩
-      · intro r hr; exact List.mem_cons_of_mem _ (hinv.res_sub r hr)
-      · intro p hp
-        rcases List.mem_append.mp hp with hp | hp
-        · exact List.mem_cons_of_mem _ (hinv.out_used p hp)
-        · simp at hp; subst hp; simp
-      · intro p hp
-        rcases List.mem_append.mp hp with hp | hp
-        · exact hinv.out_fresh p hp
-        · simp at hp; subst hp
-          exact fun hr => hfree (hinv.res_sub _ hr)
-      · rw [List.pairwise_append]
-        refine ⟨hinv.out_distinct, by simp, ?_⟩
-        intro a ha b hb
-        simp at hb; subst hb
-        intro e
-        have e' : a.2 = c := e
-        exact hfree (e' ▸ hinv.out_used a ha)
-      · intro g hg
-        rcases List.mem_cons.mp hg with hg | hg
-        · subst hg; simp
-        · exact List.mem_cons_of_mem _ (hinv.gen_used g hg)
-    · cases h
+  · cases h
 
-theorem assignSyms_inv {reserved : List String} {name : String} {single : Bool} :
-    ∀ (syms : List Sym) {st st' : St}, Inv reserved st → assignSyms name single st syms = .ok st' → Inv reserved st' := by
+theorem assignSyms_gen_inv {used0 kept done : List String} {name : String} :
+    ∀ (syms : List Sym) {st st' : St}, Inv used0 kept done st → assignSyms name false st syms = .ok st' →
+      Inv used0 kept done st' := by
   intro syms
   induction syms with
   | nil => intro st st' hinv h; simp [assignSyms] at h; subst h; exact hinv
@@ -177,21 +246,108 @@ theorem assignSyms_inv {reserved : List String} {name : String} {single : Bool} 
     unfold assignSyms at h
     split at h
     · rename_i st1 h1
-      exact ih (assignSym_inv hinv h1) h
+      exact ih (assignSym_gen_inv hinv h1) h
     · cases h
 
-theorem assignGroups_inv {reserved : List String} :
-    ∀ (gs : List (String × List Sym)) {st st' : St}, Inv reserved st → assignGroups st gs = .ok st' → Inv reserved st' := by
+/-- one group of the second loop.  A kept key must belong to a one-symbol group (true when keys are distinct). -/
+theorem assignGroup_inv {used0 kept done : List String} {st st' : St} {g : String × List Sym}
+    (hkept_sub : ∀ k, k ∈ kept → k ∈ used0)
+    (hinv : Inv used0 kept done st) (hnew : g.1 ∉ done) (hone : g.1 ∈ kept → ∃ s, g.2 = [s])
+    (h : assignGroup kept st g = .ok st') : Inv used0 kept (g.1 :: done) st' := by
+  unfold assignGroup at h
+  by_cases hk : g.1 ∈ kept
+  · obtain ⟨s, hs⟩ := hone hk
+    have hc : kept.contains g.1 = true := by simpa using hk
+    rw [hc, hs] at h
+    simp only [assignSyms, assignSym, if_true] at h
+    cases h
+    refine ⟨hinv.used0_sub, ?_, ?_, ?_⟩
+    · intro p hp
+      rcases List.mem_append.mp hp with hp | hp
+      · exact hinv.out_used p hp
+      · simp at hp; subst hp; exact hinv.used0_sub _ (hkept_sub _ hk)
+    · intro p hp
+      rcases List.mem_append.mp hp with hp | hp
+      · exact (hinv.out_class p hp).imp (fun ⟨a, b⟩ => ⟨List.mem_cons_of_mem _ a, b⟩) id
+      · simp at hp; subst hp; left; exact ⟨List.mem_cons_self .., hk⟩
+    · rw [List.pairwise_append]
+      refine ⟨hinv.out_distinct, by simp, ?_⟩
+      intro a ha b hb
+      simp at hb; subst hb
+      intro e
+      have e' : a.2 = g.1 := e
+      rcases hinv.out_class a ha with ⟨hd, _⟩ | hn
+      · exact hnew (e' ▸ hd)
+      · exact hn (e' ▸ hkept_sub _ hk)
+  · have hc : kept.contains g.1 = false := by simpa using hk
+    rw [hc] at h
+    exact (assignSyms_gen_inv g.2 hinv h).mono_done g.1
+
+theorem assignGroups_inv {used0 kept : List String} (hkept_sub : ∀ k, k ∈ kept → k ∈ used0) :
+    ∀ (gs : List (String × List Sym)) {done : List String} {st st' : St}, Inv used0 kept done st →
+      (gs.map (·.1)).Pairwise (· ≠ ·) → (∀ g, g ∈ gs → g.1 ∉ done) →
+      (∀ g, g ∈ gs → g.1 ∈ kept → ∃ s, g.2 = [s]) →
+      assignGroups kept st gs = .ok st' → ∃ done', Inv used0 kept done' st' := by
   intro gs
   induction gs with
-  | nil => intro st st' hinv h; simp [assignGroups] at h; subst h; exact hinv
+  | nil => intro done st st' hinv _ _ _ h; simp [assignGroups] at h; subst h; exact ⟨done, hinv⟩
   | cons g r ih =>
-    intro st st' hinv h
+    intro done st st' hinv hpw hnd hone h
     unfold assignGroups at h
+    simp only [List.map_cons, List.pairwise_cons] at hpw
     split at h
     · rename_i st1 h1
-      exact ih (assignSyms_inv _ hinv h1) h
+      have hinv1 := assignGroup_inv hkept_sub hinv (hnd g (List.mem_cons_self ..)) (hone g (List.mem_cons_self ..)) h1
+      apply ih hinv1 hpw.2 _ (fun g' hg' => hone g' (List.mem_cons_of_mem _ hg')) h
+      intro g' hg' hmem
+      rcases List.mem_cons.mp hmem with e | hm
+      · exact hpw.1 g'.1 (List.mem_map.mpr ⟨g', hg', rfl⟩) e.symm
+      · exact hnd g' (List.mem_cons_of_mem _ hg') hm
     · cases h
+
+/-- in a list with pairwise different keys an element is determined by its key -/
+theorem eq_of_fst_eq {α β : Type} : ∀ {l : List (α × β)}, (l.map (·.1)).Pairwise (· ≠ ·) →
+    ∀ p ∈ l, ∀ q ∈ l, p.1 = q.1 → p = q := by
+  intro l
+  induction l with
+  | nil => intro _ p hp; simp at hp
+  | cons a r ih =>
+    intro hpw p hp q hq e
+    simp only [List.map_cons, List.pairwise_cons] at hpw
+    rcases List.mem_cons.mp hp with ep | hp' <;> rcases List.mem_cons.mp hq with eq | hq'
+    · rw [ep, eq]
+    · rw [ep] at e; exact absurd e (hpw.1 q.1 (List.mem_map.mpr ⟨q, hq', rfl⟩))
+    · rw [eq] at e; exact absurd e.symm (hpw.1 p.1 (List.mem_map.mpr ⟨p, hp', rfl⟩))
+    · exact ih hpw.2 p hp' q hq' e
+
+/-- what holds of the state a scope ends in -/
+structure ScopeOk (reserved : List String) (st : St) : Prop where
+  out_fresh : ∀ p, p ∈ st.out → p.2 ∉ reserved
+  out_distinct : st.out.Pairwise (fun a b => a.2 ≠ b.2)
+
+/-- **both loops of a scope** (keys pairwise different, as the keys of a map are): no assigned name is reserved and
+the assigned names are pairwise different -/
+theorem scopeRun_ok {reserved : List String} {gs : List (String × List Sym)} {st : St}
+    (hpw : (gs.map (·.1)).Pairwise (· ≠ ·)) (h : scopeRun reserved gs = .ok st) : ScopeOk reserved st := by
+  unfold scopeRun at h
+  simp only at h
+  have hks : ∀ k, k ∈ (claimKept reserved gs).2 → k ∈ (claimKept reserved gs).1 :=
+    fun k hk => (claim_kept gs reserved k hk).1
+  have hone : ∀ g, g ∈ gs → g.1 ∈ (claimKept reserved gs).2 → ∃ s, g.2 = [s] := by
+    intro g hg hk
+    obtain ⟨_, _, g', hg', e1, e2⟩ := claim_kept gs reserved g.1 hk
+    have : g' = g := eq_of_fst_eq hpw g' hg' g hg e1
+    subst this
+    match hg2 : g'.2, e2 with
+    | [s], _ => exact ⟨s, rfl⟩
+    | [], e2 => simp at e2
+    | _ :: _ :: _, e2 => simp at e2
+  obtain ⟨done', hinv⟩ := assignGroups_inv hks gs (inv_init _ _) hpw (fun _ _ hm => by simp at hm) hone h
+  refine ⟨?_, hinv.out_distinct⟩
+  intro p hp hr
+  rcases hinv.out_class p hp with ⟨_, hk⟩ | hn
+  · exact (claim_kept gs reserved p.2 hk).2.1 hr
+  · exact hn (claim_used_sub gs reserved _ hr)
 
 /-! ## local pass -/
 
@@ -281,10 +437,10 @@ theorem mem_sortedNames {x : String} : ∀ {xs : List String}, x ∈ sortedNames
         · exact h
     · simp only [mem_insertSorted, ih, List.mem_cons]
 
-/-! ## verbatim: a group of one symbol whose name is free keeps it -/
+/-! ## verbatim: a group of one symbol whose name is not reserved keeps it -/
 
-theorem assignSym_out_mono {name : String} {single : Bool} {st st' : St} {s : Sym}
-    (h : assignSym name single st s = .ok st') : ∀ p, p ∈ st.out → p ∈ st'.out := by
+theorem assignSym_out_mono {name : String} {keep : Bool} {st st' : St} {s : Sym}
+    (h : assignSym name keep st s = .ok st') : ∀ p, p ∈ st.out → p ∈ st'.out := by
   unfold assignSym at h
   split at h
   · cases h; intro p hp; exact List.mem_append_left _ hp
@@ -292,28 +448,8 @@ theorem assignSym_out_mono {name : String} {single : Bool} {st st' : St} {s : Sy
     · cases h; intro p hp; exact List.mem_append_left _ hp
     · cases h
 
-theorem assignSym_used {name : String} {single : Bool} {st st' : St} {s : Sym}
-    (h : assignSym name single st s = .ok st') :
-    ∀ u, u ∈ st'.used → u ∈ st.used ∨ u = name ∨ ∃ k, u = cand name k := by
-  unfold assignSym at h
-  split at h
-  · cases h
-    intro u hu
-    rcases List.mem_cons.mp hu with hu | hu
-    · exact Or.inr (Or.inl hu)
-    · exact Or.inl hu
-  · split at h
-    · rename_i c hc
-      cases h
-      intro u hu
-      rcases List.mem_cons.mp hu with hu | hu
-      · obtain ⟨j, _, hj, _⟩ := firstFree_is_cand _ _ hc
-        exact Or.inr (Or.inr ⟨j, hu.trans hj⟩)
-      · exact Or.inl hu
-    · cases h
-
-theorem assignSyms_out_mono {name : String} {single : Bool} :
-    ∀ (syms : List Sym) {st st' : St}, assignSyms name single st syms = .ok st' → ∀ p, p ∈ st.out → p ∈ st'.out := by
+theorem assignSyms_out_mono {name : String} {keep : Bool} :
+    ∀ (syms : List Sym) {st st' : St}, assignSyms name keep st syms = .ok st' → ∀ p, p ∈ st.out → p ∈ st'.out := by
   intro syms
   induction syms with
   | nil => intro st st' h p hp; simp [assignSyms] at h; subst h; exact hp
@@ -325,24 +461,9 @@ theorem assignSyms_out_mono {name : String} {single : Bool} :
       exact ih h p (assignSym_out_mono h1 p hp)
     · cases h
 
-theorem assignSyms_used {name : String} {single : Bool} :
-    ∀ (syms : List Sym) {st st' : St}, assignSyms name single st syms = .ok st' →
-      ∀ u, u ∈ st'.used → u ∈ st.used ∨ u = name ∨ ∃ k, u = cand name k := by
-  intro syms
-  induction syms with
-  | nil => intro st st' h u hu; simp [assignSyms] at h; subst h; exact Or.inl hu
-  | cons s r ih =>
-    intro st st' h u hu
-    unfold assignSyms at h
-    split at h
-    · rename_i st1 h1
-      rcases ih h u hu with h2 | h2
-      · exact assignSym_used h1 u h2
-      · exact Or.inr h2
-    · cases h
-
-theorem assignGroups_out_mono :
-    ∀ (gs : List (String × List Sym)) {st st' : St}, assignGroups st gs = .ok st' → ∀ p, p ∈ st.out → p ∈ st'.out := by
+theorem assignGroups_out_mono {kept : List String} :
+    ∀ (gs : List (String × List Sym)) {st st' : St}, assignGroups kept st gs = .ok st' →
+      ∀ p, p ∈ st.out → p ∈ st'.out := by
   intro gs
   induction gs with
   | nil => intro st st' h p hp; simp [assignGroups] at h; subst h; exact hp
@@ -354,65 +475,105 @@ theorem assignGroups_out_mono :
       exact ih h p (assignSyms_out_mono _ h1 p hp)
     · cases h
 
-/-- the group `(n, [sym])` keeps `n` when `n` is still free -/
-theorem assignGroup_keep {n : String} {sym : Sym} {st st' : St}
-    (h : assignGroup st (n, [sym]) = .ok st') (hfree : n ∉ st.used) : (sym, n) ∈ st'.out := by
-  unfold assignGroup at h
-  simp only [List.length_singleton, BEq.rfl] at h
-  unfold assignSyms at h
-  split at h
-  · rename_i st1 h1
-    simp [assignSyms] at h
-    subst h
-    unfold assignSym at h1
-    have : (true && !st.used.contains n) = true := by simpa using hfree
-    rw [if_pos this] at h1
-    cases h1
-    simp
-  · cases h
+/-- the symbols of a kept group all receive the group's name -/
+theorem assignSyms_keep {name : String} :
+    ∀ (syms : List Sym) {st st' : St}, assignSyms name true st syms = .ok st' →
+      ∀ s, s ∈ syms → (s, name) ∈ st'.out := by
+  intro syms
+  induction syms with
+  | nil => intro st st' _ s hs; simp at hs
+  | cons a r ih =>
+    intro st st' h s hs
+    unfold assignSyms at h
+    split at h
+    · rename_i st1 h1
+      rcases List.mem_cons.mp hs with e | hs'
+      · subst e
+        apply assignSyms_out_mono r h
+        unfold assignSym at h1
+        simp only [if_true] at h1
+        cases h1
+        simp
+      · exact ih h s hs'
+    · cases h
 
-/-- **per-scope verbatim**: if every group keyed `n` is `(n, [sym])`, no candidate of any key equals `n`, `n` is
-not yet used, and a group keyed `n` is still to come (or `(sym, n)` is already assigned), then `(sym, n)` is in
-the result -/
-theorem assignGroups_keep {n : String} {sym : Sym} :
-    ∀ (gs : List (String × List Sym)) {st st' : St}, assignGroups st gs = .ok st' →
-      (∀ g, g ∈ gs → g.1 = n → g.2 = [sym]) → (∀ g, g ∈ gs → ∀ k, cand g.1 k ≠ n) →
-      ((sym, n) ∈ st.out ∨ (n ∉ st.used ∧ ∃ g, g ∈ gs ∧ g.1 = n)) → (sym, n) ∈ st'.out := by
+theorem assignGroups_keep {kept : List String} :
+    ∀ (gs : List (String × List Sym)) {st st' : St}, assignGroups kept st gs = .ok st' →
+      ∀ g, g ∈ gs → g.1 ∈ kept → ∀ s, s ∈ g.2 → (s, g.1) ∈ st'.out := by
   intro gs
   induction gs with
-  | nil =>
-    intro st st' h _ _ hc
-    simp [assignGroups] at h; subst h
-    rcases hc with hc | ⟨_, g, hg, _⟩
-    · exact hc
-    · simp at hg
-  | cons g r ih =>
-    intro st st' h hgrp hcl hc
+  | nil => intro st st' _ g hg; simp at hg
+  | cons a r ih =>
+    intro st st' h g hg hk s hs
     unfold assignGroups at h
     split at h
     · rename_i st1 h1
-      have hgrp' : ∀ g', g' ∈ r → g'.1 = n → g'.2 = [sym] := fun g' hg' => hgrp g' (List.mem_cons_of_mem _ hg')
-      have hcl' : ∀ g', g' ∈ r → ∀ k, cand g'.1 k ≠ n := fun g' hg' => hcl g' (List.mem_cons_of_mem _ hg')
-      apply ih h hgrp' hcl'
-      rcases hc with hc | ⟨hfree, g0, hg0, hg0n⟩
-      · exact Or.inl (assignSyms_out_mono _ h1 _ hc)
-      · by_cases hgn : g.1 = n
-        · -- this is the group of `n`
-          left
-          have h2 : g.2 = [sym] := hgrp g (List.mem_cons_self ..) hgn
-          have hg : g = (n, [sym]) := by cases g; simp_all
-          rw [hg] at h1
-          exact assignGroup_keep h1 hfree
-        · right
-          refine ⟨?_, ?_⟩
-          · intro hmem
-            rcases assignSyms_used _ h1 n hmem with h3 | h3 | ⟨k, h3⟩
-            · exact hfree h3
-            · exact hgn h3.symm
-            · exact hcl g (List.mem_cons_self ..) k h3.symm
-          · rcases List.mem_cons.mp hg0 with e | hg0'
-            · exact absurd (e ▸ hg0n) hgn
-            · exact ⟨g0, hg0', hg0n⟩
+      rcases List.mem_cons.mp hg with e | hg'
+      · subst e
+        apply assignGroups_out_mono r h
+        unfold assignGroup at h1
+        have hc : kept.contains g.1 = true := by simpa using hk
+        rw [hc] at h1
+        exact assignSyms_keep g.2 h1 s hs
+      · exact ih h g hg' hk s hs
+    · cases h
+
+/-- **per-scope verbatim** (no side condition about generated names any more): a group of exactly one symbol
+whose name is not reserved gives that symbol its name -/
+theorem scopeRun_keep {reserved : List String} {gs : List (String × List Sym)} {st : St}
+    (h : scopeRun reserved gs = .ok st) {n : String} {sym : Sym} (hg : (n, [sym]) ∈ gs) (hres : n ∉ reserved) :
+    (sym, n) ∈ st.out := by
+  unfold scopeRun at h
+  simp only at h
+  rcases claim_keeps gs reserved (n, [sym]) hg rfl with hk | hr
+  · exact assignGroups_keep gs h (n, [sym]) hg hk sym (List.mem_singleton.mpr rfl)
+  · exact absurd hr hres
+
+/-! ## which symbols receive names -/
+
+theorem assignSyms_out_syms {name : String} {keep : Bool} :
+    ∀ (syms : List Sym) {st st' : St}, assignSyms name keep st syms = .ok st' →
+      ∀ p, p ∈ st'.out → p ∈ st.out ∨ p.1 ∈ syms := by
+  intro syms
+  induction syms with
+  | nil => intro st st' h p hp; simp [assignSyms] at h; subst h; exact Or.inl hp
+  | cons a r ih =>
+    intro st st' h p hp
+    unfold assignSyms at h
+    split at h
+    · rename_i st1 h1
+      rcases ih h p hp with h2 | h2
+      · unfold assignSym at h1
+        split at h1
+        · cases h1
+          rcases List.mem_append.mp h2 with h3 | h3
+          · exact Or.inl h3
+          · simp at h3; subst h3; exact Or.inr (List.mem_cons_self ..)
+        · split at h1
+          · cases h1
+            rcases List.mem_append.mp h2 with h3 | h3
+            · exact Or.inl h3
+            · simp at h3; subst h3; exact Or.inr (List.mem_cons_self ..)
+          · cases h1
+      · exact Or.inr (List.mem_cons_of_mem _ h2)
+    · cases h
+
+theorem assignGroups_out_syms {kept : List String} :
+    ∀ (gs : List (String × List Sym)) {st st' : St}, assignGroups kept st gs = .ok st' →
+      ∀ p, p ∈ st'.out → p ∈ st.out ∨ ∃ g, g ∈ gs ∧ p.1 ∈ g.2 := by
+  intro gs
+  induction gs with
+  | nil => intro st st' h p hp; simp [assignGroups] at h; subst h; exact Or.inl hp
+  | cons a r ih =>
+    intro st st' h p hp
+    unfold assignGroups at h
+    split at h
+    · rename_i st1 h1
+      rcases ih h p hp with h2 | ⟨g, hg, hpg⟩
+      · rcases assignSyms_out_syms a.2 h1 p h2 with h3 | h3
+        · exact Or.inl h3
+        · exact Or.inr ⟨a, List.mem_cons_self .., h3⟩
+      · exact Or.inr ⟨g, List.mem_cons_of_mem _ hg, hpg⟩
     · cases h
 
 /-- the groups of a scope: keys are exactly the names that occur, the symbols are the filter -/
@@ -427,5 +588,17 @@ theorem mem_groupsOf {syms : List (String × Sym)} {g : String × List Sym} :
     refine ⟨g.1, ⟨p, hp, hpe⟩, ?_⟩
     cases g
     simp_all
+
+/-- every symbol named by a scope is one of the scope's symbols -/
+theorem scopeRun_out_syms {reserved : List String} {syms : List (String × Sym)} {st : St}
+    (h : scopeRun reserved (groupsOf syms) = .ok st) : ∀ p, p ∈ st.out → ∃ q, q ∈ syms ∧ q.2 = p.1 := by
+  intro p hp
+  unfold scopeRun at h
+  simp only at h
+  rcases assignGroups_out_syms _ h p hp with h1 | ⟨g, hg, hpg⟩
+  · simp at h1
+  · rw [(mem_groupsOf.mp hg).2] at hpg
+    obtain ⟨q, hq, e⟩ := List.mem_map.mp hpg
+    exact ⟨q, (List.mem_filter.mp hq).1, e⟩
 
 end RsslVerif.Lemmas.Names
